@@ -337,9 +337,28 @@ func (g *Gen) mayPanic(kind, safe string, pos token.Pos) {
 	if safe == "true" {
 		return
 	}
-	if g.fc != nil && g.fc.NoPanic && g.pass == 2 && g.inlineDepth == 0 {
-		g.callOrd["nopanic:"+kind]++
-		g.oblige("nopanic", fmtf("%s/nopanic#%s.%d", g.fnLabel(), kind, g.callOrd["nopanic:"+kind]), safe, nil, "no "+kind+" panic", pos)
+	if g.pass == 1 {
+		if g.panicSites == nil {
+			g.panicSites = map[string][]token.Pos{}
+		}
+		g.panicSites[kind] = append(g.panicSites[kind], pos)
+	}
+	if g.fc != nil && g.fc.NoPanic && g.pass == 2 && g.inlineDepth == 0 &&
+		(len(g.fc.NoPanicKinds) == 0 || containsStr(g.fc.NoPanicKinds, kind)) {
+		// ordinal in source order (rank of the position among this kind's sites), stable under
+		// changes of block processing order
+		rank := 1
+		for _, p := range g.panicSites[kind] {
+			if p < pos {
+				rank++
+			}
+		}
+		g.callOrd["nopanic:"+kind+fmtf(":%d", rank)]++
+		name := fmtf("%s/nopanic#%s.%d", g.fnLabel(), kind, rank)
+		if c := g.callOrd["nopanic:"+kind+fmtf(":%d", rank)]; c > 1 {
+			name += fmtf("_%d", c)
+		}
+		g.oblige("nopanic", name, safe, g.fc.NoPanicProps, "no "+kind+" panic", pos)
 	}
 	g.assume(safe)
 }
